@@ -537,6 +537,8 @@ func main() {
 	sb.WriteString("/-- fingerprints of the example store's container algorithms (examples/go-redisd/server/{list,set,zset}.go):\n")
 	sb.WriteString("function, FNV-1a 64 of its body printed without comments and with whitespace collapsed -/\n")
 	sb.WriteString("def exStoreFingerprints : List (String × Nat) := [" + strings.Join(exStoreFingerprints(repo), ", ") + "]\n\n")
+	sb.WriteString("/-- fingerprints of the parser and serializer functions of redis/proto that the model transcribes -/\n")
+	sb.WriteString("def protoFingerprints : List (String × Nat) := [" + strings.Join(protoFingerprints(repo), ", ") + "]\n\n")
 	sb.WriteString("end GoRedis.Generated\n")
 	old, _ := os.ReadFile(out)
 	if string(old) != sb.String() {
@@ -662,13 +664,26 @@ func reentrantLocking(files []*ast.File) []string {
 
 // exStoreFingerprints: see the comment at its use.
 func exStoreFingerprints(repo string) []string {
-	want := map[string]bool{"List.LPop": true, "List.RPop": true, "List.LPush": true, "List.RPush": true, "List.Range": true, "clampRange": true, "List.Index": true,
+	return fingerprints(repo, "examples/go-redisd/server", []string{"list.go", "set.go", "zset.go"}, exStoreWant)
+}
+
+// protoFingerprints: the parser and the serializer of redis/proto, which Model/ParserImpl, Model/Reader and Model/Resp
+// transcribe function by function.
+func protoFingerprints(repo string) []string {
+	return fingerprints(repo, "redis/proto", []string{"parser.go", "message.go", "array.go"}, map[string]bool{
+		"Parser.nextLineBytes": true, "Parser.nextLengthBytes": true, "Parser.nextBulkMessage": true, "Parser.nextArrayMessage": true, "Parser.Next": true,
+		"newArrayWithParser": true, "Message.RESPBytes": true, "Array.RESPBytes": true, "Array.ReverseBy": true})
+}
+
+var exStoreWant = map[string]bool{"List.LPop": true, "List.RPop": true, "List.LPush": true, "List.RPush": true, "List.Range": true, "clampRange": true, "List.Index": true,
 		"Set.Add": true, "Set.Rem": true, "ZSet.Add": true, "ZSet.Rem": true, "ZSet.Range": true, "ZSet.RangeByScore": true, "limitZSetMembers": true,
 		"reverseZSetMembers": true, "ZSet.Score": true, "ZSet.IncBy": true}
+
+func fingerprints(repo string, dir string, bases []string, want map[string]bool) []string {
 	var out []string
-	for _, base := range []string{"list.go", "set.go", "zset.go"} {
+	for _, base := range bases {
 		fset := token.NewFileSet()
-		f, err := parser.ParseFile(fset, filepath.Join(repo, "examples/go-redisd/server", base), nil, 0)
+		f, err := parser.ParseFile(fset, filepath.Join(repo, dir, base), nil, 0)
 		if err != nil {
 			fmt.Fprintln(os.Stderr, "extract: cannot parse", base, err)
 			os.Exit(1)
